@@ -16,6 +16,11 @@ Families:
            seed >= 0 — must reproduce the C output (states, bit patterns of the values) exactly.
   fresh    a sample of the same calls, each in a fresh child process: same output as inside the history.
   reorder  the sampled history again in reversed order in another child: same per-call output.
+  objhist  histories on ONE model object (PUSOMatrix / QUSOMatrix / PUBOMatrix / QUBOMatrix and the labelled types):
+           in-place growth (`H[k] = v`, `+=` with new, larger labels), cancellation, `*=` (scalar and by a model),
+           refresh(), clear(), reads of max_index / num_binary_variables / variables / degree, interleaved with
+           anneal_* calls on the same object; every C call of the history is recorded and judged like an `api` call
+           (stale bookkeeping such as a cached size that sizes the C buffers too small shows up here).
   direct   calls of the private `c_anneal_*` with arguments *outside* WF, each in its own child: the model's
            `MemErr` is compared with the sanitizer's verdict (validates that the model's errors are real).
 
@@ -31,6 +36,8 @@ CEXT = "plain"
 RULE = ("public-API calls of the four annealers under ASan+UBSan in one child process (history), inputs from the C11 "
         "generator plus single-variable / isolated / gapped-Matrix / high-degree / no-coupling / cancelled / larger-N "
         "shapes, schedules incl. [] and zeros, num_anneals>=1 (a few <=0), with/without initial state, both orders; "
+        "plus histories on one model object (in-place growth, cancellation, *=, refresh, clear, bookkeeping reads, "
+        "several anneals; non-trivial = >= 2 C calls); "
         "non-trivial = the call reached the C kernel with N>=2, >=1 coupling of degree>=2 and a non-empty schedule; "
         "distinct = distinct case JSON")
 ASSUMPTIONS = [
@@ -82,6 +89,54 @@ def asan_dir():
 
 # ------------------------------------------------------------------ child process (runs under ASan)
 
+def _run_objhist(case, sim, cur):
+    """child side of family `objhist`: the steps of one history on one object; a step that raises is recorded and the
+    history goes on (the object keeps whatever state the failed step left)"""
+    L = c11.Labels(case["labels"])
+    num = lambda v: c11.num_of(v, case["num"])
+    H = c11.cls_of(case["kind"])()
+    log = []
+    for k, st in enumerate(case["steps"]):
+        cur["k"] = k
+        op = st["op"]
+        try:
+            if op == "set":
+                H[L.key(st["key"])] = num(st["v"])
+            elif op == "iadd":
+                H[L.key(st["key"])] += num(st["v"])
+            elif op == "cancel":
+                key = L.key(st["key"])
+                H[key] -= H[key]
+            elif op == "imul":
+                H *= num(st["c"])
+            elif op == "imul_poly":
+                H *= {L.key(k_): num(v) for k_, v in st["terms"]}
+            elif op == "iadd_poly":
+                H += {L.key(k_): num(v) for k_, v in st["terms"]}
+            elif op == "refresh":
+                H.refresh()
+            elif op == "clear":
+                H.clear()
+            elif op == "read":
+                x = getattr(H, st["attr"])
+                log.append({"k": k, "read": st["attr"], "v": repr(sorted(x, key=repr) if isinstance(x, (set, dict)) else x)[:80]})
+                continue
+            elif op == "anneal":
+                init = None if st["init"] is None else {L.lab(j): v for j, v in st["init"]}
+                res = getattr(sim, "anneal_" + st["fn"])(
+                    H, num_anneals=st["num_anneals"], initial_state=init, in_order=st["in_order"], seed=st["seed"],
+                    schedule=list(st["Ts"]))
+                log.append({"k": k, "n": len(res)})
+                continue
+            else:
+                raise ValueError("unknown step " + op)
+            log.append({"k": k, "ok": op})
+        except Exception as e:
+            log.append({"k": k, "err": common.exc_name(e), "detail": repr(e)[:160]})
+    cur["k"] = None
+    return {"steps": log}
+
+
 def _child_main():
     d = os.environ["C17_ASAN_DIR"]
     sys.path.insert(0, d)
@@ -91,13 +146,13 @@ def _child_main():
     if not os.path.abspath(A.__file__).startswith(d):
         print(MARK + "FATAL wrong qubovert " + A.__file__, flush=True); return 3
     orig = (A.c_anneal_quso, A.c_anneal_puso)
-    cur = {"i": None}
+    cur = {"i": None, "k": None}
 
     def say(tag, obj):
         sys.stdout.write(MARK + tag + " " + json.dumps(obj, separators=(",", ":")) + "\n"); sys.stdout.flush()
 
     def rec_quso(h, nn, nb, J, Ts, na, in_order, init, seed):
-        say("CALL", {"i": cur["i"], "kind": "quso", "h": [bits(x) for x in h], "nn": [int(x) for x in nn],
+        say("CALL", {"i": cur["i"], "k": cur["k"], "kind": "quso", "h": [bits(x) for x in h], "nn": [int(x) for x in nn],
                      "nb": [int(x) for x in nb], "J": [bits(x) for x in J], "Ts": [bits(x) for x in Ts],
                      "num_anneals": int(na), "in_order": bool(in_order), "init": [int(x) for x in init], "seed": int(seed)})
         out = orig[0](h, nn, nb, J, Ts, na, in_order, init, seed)
@@ -105,7 +160,7 @@ def _child_main():
         return out
 
     def rec_puso(N, nc, terms, cs, Ts, na, in_order, init, seed):
-        say("CALL", {"i": cur["i"], "kind": "puso", "N": int(N), "nc": [int(x) for x in nc], "terms": [int(x) for x in terms],
+        say("CALL", {"i": cur["i"], "k": cur["k"], "kind": "puso", "N": int(N), "nc": [int(x) for x in nc], "terms": [int(x) for x in terms],
                      "cs": [bits(x) for x in cs], "Ts": [bits(x) for x in Ts], "num_anneals": int(na),
                      "in_order": bool(in_order), "init": [int(x) for x in init], "seed": int(seed)})
         out = orig[1](N, nc, terms, cs, Ts, na, in_order, init, seed)
@@ -120,13 +175,15 @@ def _child_main():
             continue
         item = json.loads(line)
         i, case = item["i"], item["case"]
-        cur["i"] = i
+        cur["i"], cur["k"] = i, None
         sys.stderr.write(MARK + "BEGIN %d\n" % i); sys.stderr.flush()
         say("BEGIN", {"i": i})
         try:
             with warnings.catch_warnings():
                 warnings.simplefilter("ignore")
-                if case["family"] == "direct":
+                if case["family"] == "objhist":
+                    api = _run_objhist(case, sim, cur)
+                elif case["family"] == "direct":
                     a = case["args"]
                     if case["kind"] == "quso":
                         rec_quso(unb(a["h"]), a["nn"], a["nb"], unb(a["J"]), unb(a["Ts"]), a["num_anneals"],
@@ -186,11 +243,14 @@ def run_child(items, timeout):
             bye = True; continue
         o = json.loads(rest)
         if tag == "BEGIN":
-            recs[o["i"]] = {"call": None, "out": None, "api": None, "san": ""}; order.append(o["i"])
+            recs[o["i"]] = {"call": None, "out": None, "api": None, "san": "", "calls": []}; order.append(o["i"])
         elif tag == "CALL":
-            i = o.pop("i"); recs[i]["call"] = o
+            i = o.pop("i"); k = o.pop("k", None); recs[i]["call"] = o
+            recs[i]["calls"].append({"k": k, "call": o, "out": None})
         elif tag == "OUT":
             recs[o["i"]]["out"] = o["out"]
+            if recs[o["i"]]["calls"]:
+                recs[o["i"]]["calls"][-1]["out"] = o["out"]
         elif tag == "RES":
             recs[o["i"]]["api"] = o["api"]
     seg, curi = {}, None
@@ -232,7 +292,7 @@ def run_history(items, timeout=600, cap=40):
         restarts += 1
         if restarts >= cap:
             for i, _ in pending:
-                out[i] = {"call": None, "out": None, "api": None, "san": "", "not_run": True}
+                out[i] = {"call": None, "out": None, "api": None, "san": "", "calls": [], "not_run": True}
             break
     return out, restarts
 
@@ -482,6 +542,136 @@ def process(ctx, cases, sample_fresh):
                               % (hist[i]["out"], recs[i].get("out")))
             judge(ctx, cases[i], recs[i], None)
 
+# ------------------------------------------------------------------ family `objhist`: histories on one object
+
+HIST_KINDS = {"PUSOMatrix": ["puso"], "QUSOMatrix": ["quso", "puso"], "PUBOMatrix": ["pubo"], "QUBOMatrix": ["qubo", "pubo"],
+              "PUSO": ["puso"], "QUSO": ["quso", "puso"], "PCSO": ["puso"], "PUBO": ["pubo"], "QUBO": ["qubo", "pubo"],
+              "PCBO": ["pubo"]}
+
+def _anneal_step(rng, fn, dom, give_init=None):
+    dur = rng.choice([0, 1, 2, 3, 5, 8])
+    Ts = [rng.choice([0.0, 0.5, 1.0, 2.5]) for _ in range(dur)]
+    spin = fn in c11.SPIN_FNS
+    if give_init is None:
+        give_init = rng.random() < 0.4
+    # the initial state covers every label the history can ever use (a superset of the variables is a valid argument)
+    init = [[i, rng.choice([1, -1] if spin else [0, 1])] for i in dom] if give_init else None
+    return {"op": "anneal", "fn": fn, "num_anneals": rng.choice([1, 1, 2, 3]), "Ts": Ts, "in_order": rng.random() < 0.5,
+            "seed": rng.randrange(2 ** 31), "init": init}
+
+def gen_objhist(rng, big=False):
+    kind = rng.choice(["PUSOMatrix"] * 4 + ["QUSOMatrix"] * 3 + ["PUBOMatrix", "QUBOMatrix", "PUSO", "QUSO", "PCSO", "PUBO",
+                                                                  "QUBO", "PCBO"])
+    fns = HIST_KINDS[kind]
+    deg2 = kind in c11.DEG2
+    matrix = kind in c11.MATRIX
+    top = rng.randint(12, 40) if big else rng.randint(5, 14)
+    dom = list(range(top))
+    C = c11.COEFS
+    lo = rng.randint(1, max(1, top // 3))            # the first phase only uses labels < lo
+    def key(pool, maxdeg):
+        ln = rng.randint(1, max(1, min(maxdeg, len(pool))))
+        return sorted(rng.sample(pool, ln))
+    maxdeg = 2 if deg2 else rng.choice([3, 4, 6])
+    steps = []
+    def edits(pool, n):
+        for _ in range(n):
+            steps.append({"op": rng.choice(["set", "iadd", "iadd"]), "key": key(pool, maxdeg), "v": rng.choice(C)})
+    def reads():
+        for a in rng.sample(["max_index", "num_binary_variables", "variables", "degree"], rng.randint(0, 3)):
+            if a == "max_index" and not matrix:
+                continue
+            steps.append({"op": "read", "attr": a})
+    pool = dom[:lo]
+    edits(pool, rng.randint(1, 4))
+    for phase in range(rng.randint(2, 4)):
+        reads()
+        steps.append(_anneal_step(rng, rng.choice(fns), dom))
+        r = rng.random()
+        if r < 0.55:                                   # growth in place: new, larger labels
+            hi = min(top, len(pool) + rng.randint(1, max(1, top // 2)))
+            new = dom[len(pool):hi] or dom
+            pool = dom[:hi]
+            for _ in range(rng.randint(1, 3)):
+                k = sorted(set(key(pool, maxdeg - 1 if maxdeg > 1 else 1) + [rng.choice(new)]))[:maxdeg]
+                steps.append({"op": rng.choice(["set", "iadd"]), "key": k, "v": rng.choice(C)})
+        elif r < 0.7:                                  # cancellation of existing terms (bookkeeping goes stale)
+            for st in [x for x in steps if x["op"] in ("set", "iadd")][-rng.randint(1, 3):]:
+                steps.append({"op": "cancel", "key": st["key"]})
+        elif r < 0.8:
+            steps.append({"op": "imul", "c": rng.choice(["2", "-1", "1/2", "0"])})
+        elif r < 0.87:
+            steps.append({"op": "imul_poly", "terms": [[[rng.choice(pool)], rng.choice(C)], [[], rng.choice(C)]]})
+        elif r < 0.93:
+            steps.append({"op": "refresh"})
+        else:
+            steps.append({"op": "clear"})
+            pool = dom[:rng.randint(1, top)]
+            edits(pool, rng.randint(1, 3))
+        if rng.random() < 0.3:
+            steps.append({"op": "iadd_poly", "terms": [[key(pool, maxdeg), rng.choice(C)] for _ in range(rng.randint(1, 3))]})
+    reads()
+    steps.append(_anneal_step(rng, rng.choice(fns), dom))
+    return {"family": "objhist", "kind": kind, "labels": "int" if matrix else rng.choice(c11.Labels.STYLES),
+            "num": rng.choice(["int", "frac", "float"]), "steps": steps}
+
+def fixed_objhist():
+    """the shapes a cached / stale size would break: evaluate the size (by an anneal or a read), grow in place, anneal"""
+    import random
+    r = random.Random(17)
+    dom = list(range(8))
+    out = []
+    for kind, fn, reader in (("PUSOMatrix", "puso", "anneal"), ("PUSOMatrix", "puso", "max_index"),
+                             ("QUSOMatrix", "puso", "anneal"), ("QUSOMatrix", "quso", "max_index"),
+                             ("PUSOMatrix", "puso", "num_binary_variables"), ("PUSO", "puso", "anneal"),
+                             ("QUSO", "quso", "anneal"), ("PUBOMatrix", "pubo", "anneal")):
+        deg2 = kind in c11.DEG2
+        steps = [{"op": "set", "key": [0, 1], "v": "1"}, {"op": "set", "key": [1, 2], "v": "-1"}]
+        steps.append(_anneal_step(r, fn, dom, False) if reader == "anneal" else {"op": "read", "attr": reader})
+        steps += [{"op": "set", "key": [2, 5] if deg2 else [2, 4, 5], "v": "-1"}, {"op": "iadd", "key": [6], "v": "2"}]
+        steps.append(_anneal_step(r, fn, dom, False))
+        steps.append(_anneal_step(r, fn, dom, True))
+        steps += [{"op": "cancel", "key": [6]}, {"op": "refresh"}, _anneal_step(r, fn, dom, False),
+                  {"op": "clear"}, {"op": "set", "key": [3], "v": "1"}, _anneal_step(r, fn, dom, True)]
+        out.append({"family": "objhist", "kind": kind, "labels": "int", "num": "int", "steps": steps})
+    return out
+
+def process_objhist(ctx, cases):
+    items = list(enumerate(cases))
+    hist, restarts = run_history(items, cap=ctx.scale(40, 150))
+    ctx.count("objhist-children-restarted-after-report", restarts)
+    lines, where = [], []
+    for i, c in items:
+        for j, cl in enumerate(hist[i].get("calls", [])):
+            lines.append(model_line(cl["call"])); where.append((i, j))
+    models = dict(zip(where, common.run_driver(lines)))
+    for i, c in items:
+        rec = hist[i]
+        if rec.get("not_run"):
+            ctx.count("not-run-after-restart-cap"); continue
+        calls = rec.get("calls", [])
+        n_anneal = sum(1 for s in c["steps"] if s["op"] == "anneal")
+        ctx.case(c, len(calls) >= 2)
+        ctx.count("objhist:" + c["kind"])
+        ctx.count("objhist-C-calls", len(calls)); ctx.count("objhist-anneal-steps", n_anneal)
+        for st in ((rec.get("api") or {}).get("steps") or []):
+            if "err" in st:
+                ctx.count("objhist-step-err:%s:%s" % (c["steps"][st["k"]]["op"], st["err"]))
+        rep_case = san_report(rec)
+        blamed = False
+        for j, cl in enumerate(calls):
+            ctx.traces += 1
+            unfinished = cl["out"] is None and (rep_case is not None) and j == len(calls) - 1
+            pseudo = {"call": cl["call"], "out": cl["out"], "san": rec.get("san", "") if unfinished else ""}
+            if unfinished and "died" in rec:
+                pseudo["died"] = rec["died"]
+            sub = dict(c, failing_step=cl["k"]) if unfinished else c
+            if judge(ctx, sub, pseudo, models.get((i, j))):
+                blamed = True
+        if rep_case and not blamed:
+            # a report that is not attached to an unfinished C call (non-fatal UBSan message, or a crash outside the kernel)
+            ctx.violation("C17:sanitizer:" + rep_case[0], c, "sanitizer report during the history: " + rep_case[1])
+
 def process_direct(ctx, cases):
     lines = [model_line(dict(c["args"], kind=c["kind"])) for c in cases]
     models = common.run_driver(lines)
@@ -516,6 +706,9 @@ def check(ctx):
     head, tail = cases[:2], cases[2:]
     rng.shuffle(tail)
     process(ctx, head + tail, ctx.scale(6, 40))
+    hists = fixed_objhist() + [gen_objhist(rng) for _ in range(ctx.scale(70, 2500))]
+    hists += [gen_objhist(rng, big=True) for _ in range(ctx.scale(10, 300))]
+    process_objhist(ctx, hists)
     process_direct(ctx, direct_cases(ctx.tier == "thorough"))
 
 def replay(ctx, payload):
@@ -526,6 +719,9 @@ def replay(ctx, payload):
     asan_dir()
     if c.get("family") == "direct":
         return process_direct(ctx, [c])
+    if c.get("family") == "objhist":
+        c = {k: v for k, v in c.items() if k != "failing_step"}
+        return process_objhist(ctx, [c])
     process(ctx, [c], 1)
 
 if __name__ == "__main__":
